@@ -197,6 +197,14 @@ mut('C05', 'step_shares_the_agents_process_group', 'internal/dag/executor/comman
 mut('C11', 'outputs_prepended_to_environment', 'internal/dag/executor/command.go', """		cmd.Env = append(cmd.Env, value.(string))""", """		cmd.Env = append([]string{value.(string)}, cmd.Env...)""")
 mut('C09', 'created_job_bound_to_nothing', 'internal/scheduler/job.go', """		DAG:        workflow,
 		Executable: jf.Executable,""", """		Executable: jf.Executable,""")
+mut('C11', 'step_variables_before_process_environment', 'internal/dag/executor/command.go', """	cmd.Env = append(cmd.Env, os.Environ()...)
+	cmd.Env = append(cmd.Env, step.Variables...)""", """	cmd.Env = append(cmd.Env, step.Variables...)
+	cmd.Env = append(cmd.Env, os.Environ()...)""")
+mut('C11', 'dag_level_environment_dropped', 'internal/dag/executor/command.go', """	cmd.Env = append(cmd.Env, dagContext.Envs.All()...)
+""", """	_ = dagContext
+""")
+mut('C11', 'environment_reset_before_outputs', 'internal/dag/executor/command.go', """	step.OutputVariables.Range(func(_, value any) bool {""", """	cmd.Env = cmd.Env[:0]
+	step.OutputVariables.Range(func(_, value any) bool {""")
 # ---- C10
 mut('C10', 'interrupted_steps_not_reset', G, """				dict[u] == NodeStatusCancel || dict[u] == NodeStatusRunning {""", """				dict[u] == NodeStatusCancel {""")
 mut('C10', 'canceled_steps_not_reset', G, """			if retry[u] || dict[u] == NodeStatusError ||
